@@ -10,7 +10,7 @@ git -C /repo worktree add -q --detach "$S" HEAD || exit 2
 trap 'git -C /repo worktree remove --force "$S" >/dev/null 2>&1; rm -rf "$S"' EXIT
 cd "$S"
 cp "$D/$DEMO" "$DEST"
-go test -vet=off -count=1 -run "$RUN" "$PKG" >/var/tmp/seedverify.$$.log 2>&1; rc=$?
+go test ${SEED_TAGS:+-tags $SEED_TAGS} -vet=off -count=1 -run "$RUN" "$PKG" >/var/tmp/seedverify.$$.log 2>&1; rc=$?
 echo "clean tree: demo rc=$rc (want 0)"
 rm -f "$DEST"
 git apply "$D/patch.diff" || { echo "patch does not apply"; exit 2; }
@@ -18,7 +18,7 @@ go build ./... || { echo "does not build"; exit 2; }
 go test -vet=off -count=1 -p 1 ./... 2>&1 | grep -E "^(FAIL|---|ok|panic)" | grep -v "^ok" | grep -v "TestResolveEndpoint" | grep -v "FAIL	github.com/gopcua/opcua/uacp" | grep -v "^FAIL$" | head -10
 echo "existing tests done (lines above, if any, are failures)"
 cp "$D/$DEMO" "$DEST"
-go test -vet=off -count=1 -run "$RUN" "$PKG" >/var/tmp/seedverify.$$.log 2>&1; rc=$?
+go test ${SEED_TAGS:+-tags $SEED_TAGS} -vet=off -count=1 -run "$RUN" "$PKG" >/var/tmp/seedverify.$$.log 2>&1; rc=$?
 echo "patched tree: demo rc=$rc (want non-zero)"
 tail -5 /var/tmp/seedverify.$$.log | cut -c1-300
 rm -f /var/tmp/seedverify.$$.log
